@@ -22,7 +22,7 @@ pub fn prop() -> Prop {
 fn spec() -> Spec {
     Spec {
         kinds: vec![Kind { name: "constrained", quick: 1_500_000, thorough: 40_000_000, serial: false }],
-        rule: "each case = non-degenerate robot (dof 5/6) inside a wrapper stack of depth 0..3 drawn from Tool/Base/Frame/Parallelogram; the same stack is built twice, with and without joint limits; limits per joint from the classes narrow-window-around-a-real-solution / wide / wrapping (three kinds) / from==to / span>=2pi / far out, weights 0, 1, random; all four entry points; constrained answers must be compliant (reference arc oracle, in the wrapped robot's coordinates) and every compliant unconstrained answer must be present; constraints() of the stack must be the wrapped robot's; non-trivial = the unconstrained call returned >= 1 answer and at least one joint is constrained; distinct = hash(robot, stack, q, limits, entry)",
+        rule: "each case = non-degenerate robot (dof 5/6) inside a wrapper stack of depth 0..3 drawn from Tool/Base/Frame/Parallelogram; the same stack is built twice, with and without joint limits; limits per joint from the classes narrow-window-around-a-real-solution / wide / wrapping (three kinds) / from==to / span>=2pi / far out, weights 0, 1, random; all four entry points; constrained answers must be compliant (reference arc oracle, in the wrapped robot's coordinates) and every compliant unconstrained answer must be present; constraints() of the stack must be the wrapped robot's; non-trivial = the unconstrained call returned >= 1 answer and at least one joint is constrained; distinct = hash(robot, stack, q, limits, entry) Workload additions: limits installed through new / update_range histories / from_degrees; from == to with signed zeros; a tenth of the poses exactly wrist-singular with the generating vector as previous; dof-5 robots with an unblocked sixth sign.",
         assumptions: vec![
             "Parallelogram: limits live in the wrapped robot's coordinates, so answers are mapped back (coupled -= scaling*driven) before the arc test; this is the reading under which the statement's two halves agree with 'the limits a wrapper reports are those of the robot it wraps'",
             "answers within 1e-9 rad of an arc end are inconclusive",
@@ -87,7 +87,7 @@ fn run_case(_kind: &str, idx: u64, rng: &mut Rng, mon: &mut Mon, _tier: Tier) {
     let mut to = [0.0; 6];
     let mut classes = [0usize; 6];
     for j in 0..6 {
-        let cls = *rng.pick(&[0, 0, 0, 1, 1, 2, 3, 4, 5, 5, 6, 7]);
+        let cls = *rng.pick(&[0, 0, 0, 1, 1, 2, 3, 4, 5, 5, 6, 7, 10]);
         classes[j] = cls;
         let (f, t) = limit_pair(rng, cls, anchor[j]);
         from[j] = f;
